@@ -739,6 +739,7 @@ func runC12My(rep *vh.Report, r *vh.Rng, n int, thorough bool) {
 	}
 	c12myMalformedTables(w, thorough) // enumerated on every run, independent of -n
 	c12myHandlerEdges(w)
+	c12myResultSets(w, r, thorough) // whole result sets through the proxy (c12myrs.go), enumerated on every run
 	if thorough {
 		c12myHuge(w)
 	}
